@@ -213,6 +213,8 @@ def mutations(sub: Subject, v: View, n: int, full: bool) -> list[list]:
         ops.append([a, 'unclaim_all'])
         ops.append([a, 'unclaim_first'])
     if v.mapping:
+        ops.append([a, 'rename', 0, 'kx'])
+        ops.append([a, 'rename', -1, 'k0'])
         for key in ('k0', 'k1', 'k2', 'kx'):
             ops.append([a, 'mdel', key])
             ops.append([a, 'mpop', key])
@@ -285,6 +287,38 @@ def run_trace(case: dict, *, check_from: int = 0) -> tuple[core.CaseResult, Opti
         where = f'{where0} after {case["ops"][:step + 1]}: '
         key_site = f'{sub.name}:{v.attr}.{meth}'
         raw_view = getattr(m, sub.raw)
+        # reads before the call, through the views that are alive: whatever a view memoises from a read must not survive
+        # the edit that follows
+        for v0 in sub.views:
+            w0 = m.__dict__.get(v0.attr)
+            if w0 is None:
+                continue
+            try:
+                len(w0)
+                list(w0)
+                if v0.mapping:
+                    for key0 in ('k0', 'k1', 'kx'):
+                        key0 in w0
+                        w0.get(key0)
+            except Exception:  # noqa: judged by the sweep of the step that broke it
+                pass
+        if meth == 'rename':
+            # the key of an element is changed through the element; lookups by key were made before (the sweep of the
+            # previous step) and must follow
+            try:
+                items_now = list(getattr(m, v.attr))
+                if items_now:
+                    items_now[op[2]].key = op[3]
+            except Exception as e:  # noqa
+                if checked:
+                    res.fail(f'C10/call-raises-unexpected[{key_site}]', where + f'{type(e).__name__}: {e}')
+                return res, None
+            if checked:
+                res.transitions += 1
+                res.outcomes['rename:ok'] += 1
+                if not consistency_sweep(sub, m, res, where, key_site):
+                    return res, None
+            continue
         if meth in ('claim_all', 'unclaim_all', 'unclaim_first'):
             try:
                 if meth == 'claim_all':
